@@ -18,6 +18,10 @@ CLAIMED = {
    text="Deductive: Visitor.visit, Visitor.depart (documented relative order of BEFORE/OUTTER/main/AFTER/INNER, pruning delayed until the extensions ran), Visitor.walkabout and Visitor.walk (recursive; ghost event trace) are verified against the documented walk W(n) = Open(n) ++ Body(n) ++ Close(n) for every tree, every assignment of pruning actions (an uninterpreted function of the node) and every list of extensions: balanced and nested enter/leave is the shape of the postcondition.",
    note="Assumed: the main visitor's visit_X records its event and raises exactly the pruning action act(n), depart_X and extension methods record their event and return; get_children is pure and the structure is a tree. Not under contract yet: the ASTBuilder scope stack (push/pop) - covered by the bounded native harness only.",
    ref='6 C19'),
+ 'C14': dict(
+   text="Deductive, on two regions of the real body of astbuilder.ModuleVistor._handleFunctionDef that are re-located by marker texts and extracted mechanically on every run: (1) the parameter-list construction (closures get_default/add_arg inlined, three loops with invariants) yields, for every ast.arguments, exactly the parameters of the language reference - positional-only, positional-or-keyword, *vararg, keyword-only, **kwarg, in that order and with those kinds, a default exactly where the source has one and wrapping that source expression, an annotation iff the source has one; (2) the return annotation is omitted iff it is absent or the literal None, the Signature receives that list, overloads append their own signature without touching the primary one.",
+   note="Assumed: ast_args_ok (CPython parser invariants), inspect.Parameter/Signature store what they are given, the value formatters display the expression they wrap (C15), _annotations_from_function and is_none_literal (bounded native harness). The extraction drops the statements of _handleFunctionDef before the first marker (decorators, docstring, kind). Everything from the Signature object to the HTML is external; the bounded native harness reads the displayed text back as Python for every layout of <= 3 (4) parameters.",
+   ref='6 C14'),
  'C15': dict(
    text="Deductive: _OperatorDelimiter.__init__ is verified against the operator-precedence grammar of the language reference for every child operator, parent operator/kind and operand side (whenever the grammar requires parentheses, they are kept: needs_parens => not discard), using astor's precedence table read from the installed package at run time; _ColorizerState.mark/restore are verified as a backup point (restore returns exactly what it trims, nothing is lost).",
    note="Not under contract: per-node rendering, line wrapping/truncation (_output, colorize), tuples, everything rendered through astor.to_source, string/bytes escaping - these are decided by the bounded native read-back oracle only (every operator chain of depth three, 45 forms x 21 wrappers, truncation grid). Known finding KF-C15-one-tuple (one-element tuples lose their comma; pinned by the repository's own test).",
